@@ -9,7 +9,7 @@ PROP = 'C08'
 MODULE = 'WaveletsVerif.Properties.C08'
 THEOREMS = ['WV.C08.mag_nonneg', 'WV.C08.mag3_nonneg', 'WV.C08.scatJ1_channels', 'WV.C08.scatJ1_raises_odd', 'WV.C08.scatJ2_raises_unless_mult8',
             'WV.C08P.ScatLayer_eq_spec',
-            'WV.C08Q.refLevel1_bands', 'WV.C08Q.scatJ2_eq_spec', 'WV.C08Q.pad8Img_rect', 'WV.C08Q.ScatLayerj2_eq_spec', 'WV.C01Z.pad8_gen', 'WV.C04Z.scat_sizes_gen', 'WV.C04Z.scatJ1_channels_gen', 'WV.C08R.scatJ2_colour_eq_spec', 'WV.C08R.ScatLayerj2_colour_eq_spec', 'WV.C08B.fwdJ1Rot_eq_ref', 'WV.C08B.fwdJ2Rot_eq_ref', 'WV.C08B.ScatLayer_rot_eq_spec', 'WV.C08B.refLevel1Rot_bands', 'WV.C08B.scatJ2_rot_eq_spec', 'WV.C08B.ScatLayerj2_rot_eq_spec', 'WV.C08B.scatJ2_rot_colour_eq_spec', 'WV.C08B.ScatLayerj2_rot_colour_eq_spec']
+            'WV.C08Q.refLevel1_bands', 'WV.C08Q.scatJ2_eq_spec', 'WV.C08Q.pad8Img_rect', 'WV.C08Q.ScatLayerj2_eq_spec', 'WV.C01Z.pad8_gen', 'WV.C04Z.scat_sizes_gen', 'WV.C04Z.scatJ1_channels_gen', 'WV.C08R.scatJ2_colour_eq_spec', 'WV.C08R.ScatLayerj2_colour_eq_spec', 'WV.C08B.fwdJ1Rot_eq_ref', 'WV.C08B.fwdJ2Rot_eq_ref', 'WV.C08B.ScatLayer_rot_eq_spec', 'WV.C08B.refLevel1Rot_bands', 'WV.C08B.scatJ2_rot_eq_spec', 'WV.C08B.ScatLayerj2_rot_eq_spec', 'WV.C08B.scatJ2_rot_colour_eq_spec', 'WV.C08B.ScatLayerj2_rot_colour_eq_spec', 'WV.C10Z.scat_glue_gen', 'WV.C10Z.forward_keeps_no_state_gen']
 KF = 'C08-scatj2-size-2'
 FAMS = [('near_sym_a', 'qshift_a'), ('near_sym_b', 'qshift_b'), ('near_sym_b_bp', 'qshift_b_bp'), ('antonini', 'qshift_c'), ('legall', 'qshift_06')]
 
